@@ -165,3 +165,36 @@ Proof. reflexivity. Qed.
 Lemma link_subsetSize : C15_Gen.subsetSize = 32%Z.
 Proof. reflexivity. Qed.
 Local Close Scope string_scope.
+
+(* ---------------------------------------------------------------- round 4: publisher, watch stream *)
+Local Open Scope string_scope.
+(* Model.p_register + `p.lease = ...`: KeepAlive = GetConn; register; keepAliveAsync *)
+Lemma link_KeepAlive : C15_Gen.calls_KeepAlive =
+  ["internal.GetRegistry().GetConn"; "return"; "p.register"; "return"; "p.Stop"; "proc.AddWrapUpListener"; "p.keepAliveAsync"; "return"].
+Proof. reflexivity. Qed.
+(* Grant, then Put of the full key WithLease *)
+Lemma link_register : C15_Gen.calls_register =
+  ["client.Ctx"; "client.Grant"; "return"; "makeEtcdKey"; "int64"; "makeEtcdKey"; "client.Ctx"; "clientv3.WithLease"; "client.Put"; "return"].
+Proof. reflexivity. Qed.
+(* Model.pstep: channel closed -> revoke, KeepAlive, return; pause -> revoke, then resume -> KeepAlive | quit; quit -> revoke *)
+Lemma link_keepAliveAsync : C15_Gen.calls_keepAliveAsync =
+  ["client.Ctx"; "client.KeepAlive"; "return"; "select";
+   "case:"; "recv:ch"; "p.revoke"; "p.KeepAlive"; "err.Error"; "logx.Errorf"; "return";
+   "case:"; "recv:p.pauseChan"; "logx.Infof"; "p.revoke"; "select";
+   "case:"; "recv:p.resumeChan"; "p.KeepAlive"; "err.Error"; "logx.Errorf"; "return";
+   "case:"; "recv:p.quit.Done()"; "return";
+   "case:"; "recv:p.quit.Done()"; "p.revoke"; "return";
+   "threading.GoSafe"; "return"].
+Proof. reflexivity. Qed.
+Lemma link_revoke : C15_Gen.calls_revoke = ["client.Ctx"; "client.Revoke"; "logx.Error"].
+Proof. reflexivity. Qed.
+Lemma link_Stop : C15_Gen.calls_Stop = ["p.quit.Close"].
+Proof. reflexivity. Qed.
+(* one response = one handleWatchEvents call with all its events (Model.apply_batch) *)
+Lemma link_watchStream : C15_Gen.calls_watchStream =
+  ["c.context"; "clientv3.WithRequireLeader"; "makeKeyPrefix"; "clientv3.WithPrefix"; "clientv3.WithRev"; "cli.Watch";
+   "c.context"; "clientv3.WithRequireLeader"; "makeKeyPrefix"; "clientv3.WithPrefix"; "cli.Watch";
+   "select"; "case:"; "recv:watchCh"; "logx.Error"; "return"; "resp.Err"; "logx.Errorf"; "return"; "resp.Err"; "resp.Err";
+   "logx.Errorf"; "return"; "c.handleWatchEvents"; "case:"; "recv:c.done"; "return"].
+Proof. reflexivity. Qed.
+Local Close Scope string_scope.
